@@ -37,6 +37,10 @@ pub fn rerun(line: &str) -> Option<String> {
             &unhex(hx), e.parse().ok()?, md.parse().ok()?, v.parse().ok()?, a.parse().ok()?, b.parse().ok()?)),
         ["select", hx, e, md, v, f] => Some(crate::gen::select_line(
             &unhex(hx), e.parse().ok()?, md.parse().ok()?, v.parse().ok()?, optn(f))),
+        ["term", hx, e, m, v, k] => {
+            let o = crate::common::Opts { ecl: optn(e), mode: optn(m), version: optn(v), mask: optn(k) };
+            Some(crate::gen::term_line(&unhex(hx), o))
+        }
         ["classify", hx] => Some(crate::gen::classify_line(&unhex(hx))),
         _ => None,
     }
